@@ -9,14 +9,14 @@ def build(ctx):
     common.pass_tasks(ctx)
     ctx.task('contracts.exprs:task_exprs')
     ctx.task('contracts.relocate:task_relocate')
-    for p in ('transform_shorthand_packs', 'resolve_packs'):
+    for p in ('resolve_instructions', 'resolve_strings', 'resolve_sequences', 'transform_shorthand_packs', 'resolve_packs', 'resolve_include_bytes'):
         ctx.task('contracts.emit:task_emit_pass', p)
     ctx.assume('A-EVAL: eval(name, env) == env[name] for a bare label name (Arithmetic.eval is Python eval)')
     ctx.trust(common.TRUST_BOUNDED)
 
 
 def bounded(ctx):
-    common.suites(ctx, ['val', 'li', 'mix', 'align', 'rand'], {'value', 'label'})
+    common.suites(ctx, ['val', 'li', 'mix', 'align', 'rand', 'data'], {'value', 'label'})
 
 
 def explanation(ctx):
